@@ -160,3 +160,23 @@ Theorem signature_member_stored_last bin ctl data sig :
   Forall wf_member [bin; ctl; data; sig] ->
   option_map (fun ms => nth_error ms 3) (ar_decode (ar_encode [bin; ctl; data; sig])) = Some (Some (m_name sig, m_body sig)).
 Proof. intros W. rewrite (ar_roundtrip _ W). reflexivity. Qed.
+
+(* ---------- the per-run check on a real .deb ---------- *)
+Lemma ar_members_full_proj f : forall s,
+  ar_members f s = option_map (map (fun m => (m_name m, m_body m))) (ar_members_full f s).
+Proof.
+  induction f as [|f IH]; intros s; [reflexivity|].
+  destruct s as [|b s]; [reflexivity|].
+  cbn [ar_members ar_members_full].
+  destruct (parse_dec _) as [size|]; [|reflexivity].
+  rewrite IH. destruct (ar_members_full f _); reflexivity.
+Qed.
+
+Lemma ar_reencodes_sound s : ar_reencodes s = true ->
+  exists ms, ar_encode ms = s /\ ar_decode s = Some (map (fun m => (m_name m, m_body m)) ms).
+Proof.
+  unfold ar_reencodes, ar_decode. intros H. apply andb_prop in H. destruct H as [Hm H]. rewrite Hm.
+  rewrite ar_members_full_proj.
+  destruct (ar_members_full (S (List.length s)) (skipn 8 s)) as [ms|]; [|discriminate].
+  apply seqb_eq in H. exists ms. split; [exact H|reflexivity].
+Qed.
